@@ -185,6 +185,75 @@ class Interp:
         finally:
             self.frame = saved
 
+    # ---------------------------------------------------------------- helpers without a contract: executed in place
+    def find_helper(self, f):
+        """a callee that has no contract but whose definition is in the file of the function under contract: a method of the class
+        under contract called on `self` (the class and its bases in this file are searched), or a module-level function.  Such a
+        helper is not trusted and not skipped: its real body is executed symbolically in place (more precise than any contract),
+        to depth 3, never recursively; generator functions and property objects are not inlined."""
+        name = f.name.split('.')[-1]
+        b = f.bound
+        tree = self.mod.tree
+        if b is None:
+            if '.' in f.name:
+                return None
+            for node in tree.body:
+                if isinstance(node, ast.FunctionDef) and node.name == name:
+                    return (node, None, None)
+            return None
+        if not isinstance(b, (VRef, VClass)):
+            return None
+        try:
+            selfv = self.frame.lookup('self')
+        except KeyError:
+            selfv = None
+        if isinstance(b, VRef) and not (isinstance(selfv, VRef) and (selfv is b or z3.eq(selfv.t, b.t))):
+            return None
+        cls = self.frame_clsname() if isinstance(b, VRef) else b.name
+        classes = {n.name: n for n in tree.body if isinstance(n, ast.ClassDef)}
+        seen = set()
+        while cls in classes and cls not in seen:
+            seen.add(cls)
+            for st in classes[cls].body:
+                if isinstance(st, ast.FunctionDef) and st.name == name:
+                    decos = {ast.unparse(d).split('(')[0].split('.')[-1] for d in st.decorator_list}
+                    if decos - {'staticmethod', 'classmethod', 'handler'}:
+                        return None
+                    return (st, cls, decos)
+            bases = [ast.unparse(x).split('.')[-1] for x in classes[cls].bases]
+            cls = next((x for x in bases if x in classes), None)
+        return None
+
+    def inline_helper(self, f, h, args, kwargs):
+        node, cls, decos = h
+        stack = self.__dict__.setdefault('_inline_stack', [])
+        if id(node) in stack or len(stack) >= 3:
+            raise Unsupported('helper %s without contract: recursive or nested deeper than 3' % f.name)
+        if _is_genfn(node):
+            raise Unsupported('generator helper %s without contract' % f.name)
+        if cls is not None and 'staticmethod' not in decos:
+            args = [VClass(cls) if 'classmethod' in decos else f.bound] + list(args)
+        self.st.notes.append('helper %s has no contract: its body (line %d) is executed in place' % (f.name, node.lineno))
+        saved = self.frame
+        saved_ord = getattr(self, 'loop_ord', None)
+        stack.append(id(node))
+        try:
+            self.frame = Frame({}, None, cls or saved.clsname)
+            env = self.bind_args(node, args, kwargs)
+            self.frame = Frame(env, None, cls or saved.clsname)
+            for sub in ast.walk(node):
+                if isinstance(sub, (ast.For, ast.While)) and id(sub) not in (saved_ord or {}):
+                    # loops of a helper have no invariant of their own: only concrete ones (literal tuples) can be executed
+                    (saved_ord if saved_ord is not None else {}).setdefault(id(sub), 'helper:%s:%d' % (node.name, sub.lineno))
+            try:
+                self.exec_block(node.body)
+            except ReturnSig as r:
+                return r.value
+            return NONE
+        finally:
+            stack.pop()
+            self.frame = saved
+
     # ---------------------------------------------------------------- statements
     def exec_block(self, stmts):
         for s in stmts:
@@ -283,6 +352,9 @@ class Interp:
                     if ks not in c.d:
                         raise_(self, 'KeyError', key)
                     del c.d[ks]
+                    continue
+                if isinstance(c, VModel) and hasattr(c, 'delitem'):
+                    c.delitem(self, self.eval(t.slice))
                     continue
                 if isinstance(c, VStr) and isinstance(t.slice, ast.Slice):
                     lo = self.eval_opt_int(t.slice.lower)
@@ -392,7 +464,9 @@ class Interp:
                 elif isinstance(n, ast.Call) and isinstance(n.func, ast.Attribute) and isinstance(n.func.value, ast.Name) \
                         and n.func.attr in ('append', 'appendleft', 'pop', 'popleft', 'add', 'remove', 'extend', 'clear',
                                             'update', 'discard', 'setdefault'):
-                    names.add(n.func.value.id)
+                    # a method call on an OBJECT (self.discard(x)) does not rebind the local: its effects are the callee's frame
+                    if not isinstance(self.frame.env.get(n.func.value.id), VRef):
+                        names.add(n.func.value.id)
                 elif isinstance(n, ast.Subscript) and isinstance(n.ctx, (ast.Store, ast.Del)) and isinstance(n.value, ast.Name):
                     names.add(n.value.id)
         for nm in sorted(names):
@@ -621,6 +695,8 @@ class Interp:
                 return z3.Select(it.arr, x) if isinstance(it, VSet) else z3.Select(it.arr, x) > 0
             x = core.fresh('vx', srt)
             env['__visited%d' % ordn] = VSet(it.ek, z3.K(srt, z3.BoolVal(False)))
+            if lspec.entry_hook:
+                lspec.entry_hook(self)
             self.check_inv(lspec, tag, 'entry')
             self.havoc_locals(s.body, lspec)
             vis = core.fresh('visited', z3.ArraySort(srt, z3.BoolSort()))
@@ -1502,6 +1578,9 @@ class Interp:
             key = '*.' + f.name.split('.')[-1]
             if key in self.spec.calls:
                 return self.spec.calls[key](self, b, args, kwargs)
+            h = self.find_helper(f)
+            if h is not None:
+                return self.inline_helper(f, h, args, kwargs)
             raise Unsupported('call of %s without contract' % f.name)
         if isinstance(f, VClass):
             return self.construct(f.name, args, kwargs)
